@@ -322,6 +322,10 @@ func readPackageInfo(directory string) (*PackageInfo, error) {
 	if err != nil {
 		return packageInfo, validation.NewValidationError(err, packageFilePath)
 	}
+	if packageInfo == nil {
+		// the document is a YAML null
+		return &PackageInfo{FilePath: packageFilePath}, validation.NewValidationError(errors.New("the package file is empty"), packageFilePath)
+	}
 
 	log.Info().Msgf("Parsed packageInfo with namespace: %v", packageInfo.Namespace)
 	return packageInfo, packageInfo.validate()
